@@ -41,6 +41,7 @@ class VLoop(asyncio.BaseEventLoop):
     def __init__(self, chooser=None, early=None, max_iterations=200000):
         super().__init__()
         self._vtime = 0.0
+        self.on_quiescent = None     # hook: (loop, live gates, timers pending?) at every quiescent point
         self.gates = {}            # name -> future (insertion ordered)
         self.chooser = chooser
         self.early = early
@@ -98,6 +99,8 @@ class VLoop(asyncio.BaseEventLoop):
             self._timer_cancelled_count = max(0, self._timer_cancelled_count - 1)
         if not self._ready:
             live = self.live()
+            if self.on_quiescent is not None and not self._stopping:
+                self.on_quiescent(self, live, bool(sched))
             pick = None
             if live and self.chooser is not None and not self._stopping:
                 names = live + ([TIMER] if sched and self.timer_choice else [])
